@@ -51,7 +51,9 @@ SOLVER_TIMEOUT_MS = 120000
 
 class Engine:
     def __init__(self):
-        self.solver = z3.Solver()
+        import os
+        logic = os.environ.get("SX_LOGIC", "")
+        self.solver = z3.SolverFor(logic) if logic else z3.Solver()
         self.solver.set("timeout", SOLVER_TIMEOUT_MS)
         self.mode = None
         self.pre = None
